@@ -115,8 +115,106 @@ POOL = tuple(
         "register q [ 1 ] ; register r [ n ] ; let n 3",
         "macro m a b c { } ; macro n < g | h > ; m 1 2 3 ; n",
         "{ subcircuit { } ; loop 1 < > ; < { } > }",
+        # every literal position of the grammar in one program
+        "register q [ 4 ] ; map a q [ 1 : 3 : 2 ] ; map b q [ 2 ] ; let k 7 ; let y 2.5 ; subcircuit 3 { loop 2 { g 5 1.25 q [ 1 ] } }",
     )
 )
+
+# comment bodies (space 4): a block comment is "/*" + body + "*/" (no body contains "*/"), a line
+# comment is "//" + body; every body in every comment position, and pairs of comments
+BLOCK_BODIES = ("", " c ", "*", "**", "***", " c *", " c **", "* /", "/", "//", "/*", " c\n* c ", "\n")
+LINE_BODIES = ("", " c", "/* c", "*/", "/* c */ g", "*", " c //")
+_PLAIN = (("B", " c "), ("L", " c"))
+assert not any("*/" in b for b in BLOCK_BODIES) and not any("\n" in b for b in LINE_BODIES)
+
+# literal variants (space 5): substituted at every INT / NUMBER token of every pool program
+LITERALS = ("0", "-0", "-1", "+2", "00", "10", "0.0", "-0.0", "-0.5", "+1.5", "1.5e3", "2.0E-2", "0.5e+1")
+
+
+def comment_deviations(toks):
+    """All single comment insertions (gap, kind, body): kind B = block comment with blanks around,
+    T = block comment tight against both neighbouring tokens, L = line comment (only before an NL
+    token or at the end of the text)."""
+    n = len(toks)
+    out = []
+    for g in range(n + 1):
+        for b in BLOCK_BODIES:
+            out.append((g, "B", b))
+        if 0 < g < n:
+            for b in BLOCK_BODIES:
+                out.append((g, "T", b))
+        if g == n or toks[g] == "\n":
+            for b in LINE_BODIES:
+                out.append((g, "L", b))
+    return out
+
+
+def comment_pair_allowed(a, b, full):
+    """May comment b be added after comment a (a rendered first)?"""
+    (g1, k1, _b1), (g2, k2, _b2) = a, b
+    if k1 == "T" or k2 == "T":
+        return False
+    if g2 < g1:
+        return False
+    if g2 == g1 and not (k1 == "B" and k2 in ("B", "L")):
+        return False
+    return full or (a[1:] in _PLAIN) or (b[1:] in _PLAIN)
+
+
+def render_comments(toks, cdevs):
+    """Canonical layout of the token string with the given comments inserted (in the given order
+    inside a gap); raises ValueError on an ill-formed insertion."""
+    n = len(toks)
+    gaps = {}
+    for g, k, b in cdevs:
+        if not 0 <= g <= n or k not in ("B", "T", "L") or "*/" in b and k != "L" or "\n" in b and k == "L":
+            raise ValueError("bad comment insertion %r" % ((g, k, b),))
+        if k == "L" and not (g == n or toks[g] == "\n"):
+            raise ValueError("line comment not before a newline: %r" % ((g, k, b),))
+        gaps.setdefault(g, []).append((k, b))
+    parts = []
+    for i in range(n + 1):
+        cs = gaps.get(i, ())
+        kinds = [k for k, _b in cs]
+        if "T" in kinds:
+            if len(cs) != 1 or not 0 < i < n:
+                raise ValueError("tight comment must be alone in an inner gap")
+            g = "/*" + cs[0][1] + "*/"
+        else:
+            if "L" in kinds[:-1]:
+                raise ValueError("line comment must be last in its gap")
+            g = "" if i == 0 or (i == n and not cs) else " "
+            for k, b in cs:
+                g += ("/*" + b + "*/ ") if k == "B" else ("//" + b)
+        parts.append(g)
+        if i < n:
+            parts.append(toks[i])
+    return "".join(parts)
+
+
+def nonpositive_register_size(toks):
+    """Does the token string reach a register-size position holding an INT < 1?  (A semantic rule
+    of the parser actions, outside this property's alphabet.)"""
+    kvs = _model_tokens(toks)
+    cfgs = S.recognise(kvs).configs
+    for j in range(min(len(kvs), len(cfgs))):
+        if cfgs[j][2] == "reg2" and kvs[j][0] == "INT" and kvs[j][1] < 1:
+            return True
+    return False
+
+
+def strict_equal(a, b):
+    """Trees equal with numbers compared by value, the sign of zero included; bools are no numbers."""
+    if isinstance(a, tuple) or isinstance(b, tuple):
+        return (isinstance(a, tuple) and isinstance(b, tuple) and len(a) == len(b)
+                and all(strict_equal(x, y) for x, y in zip(a, b)))
+    if isinstance(a, bool) or isinstance(b, bool) or isinstance(a, str) != isinstance(b, str):
+        return False
+    if a != b:
+        return False
+    if isinstance(a, float) and isinstance(b, float) and a == 0.0:
+        return repr(a) == repr(b)
+    return True
 
 _BY_SIZE = tuple(sorted((a for a in ALPHABET if a != "\n"), key=lambda a: (len(a), a)))
 
@@ -243,7 +341,7 @@ def judge(text, verdict, obs):
         return ("non-termination", "hang", "parse_to_sexpression did not finish within its fuel budget")
     if verdict[0] == "ok":
         if o == "accept":
-            if obs[1] != verdict[1]:
+            if obs[1] != verdict[1] or not strict_equal(obs[1], verdict[1]):
                 return ("tree-mismatch", "tree", "derivable; grammar tree %r, parser reported %r" % (verdict[1], obs[1]))
             return None
         what = "JaqalParseError at %r:%r" % obs[1:] if o == "reject" else "%s: %s" % obs[1:]
@@ -322,9 +420,13 @@ class C02(Check):
     def bounds(self, tier):
         if tier == "quick":
             return {"alphabet": len(ALPHABET), "seeds": len(SEEDS), "depth": 5, "depth_principal": 6, "tail": 0,
-                    "pool_programs": len(POOL), "layout_deviations": 2, "layout3_max_tokens": 0}
+                    "pool_programs": len(POOL), "layout_deviations": 2, "layout3_max_tokens": 0,
+                    "block_comment_bodies": len(BLOCK_BODIES), "line_comment_bodies": len(LINE_BODIES),
+                    "comment_pairs_all_bodies_max_tokens": 12, "literal_variants": len(LITERALS)}
         return {"alphabet": len(ALPHABET), "seeds": len(SEEDS), "depth": 7, "depth_principal": 7, "tail": 1,
-                "pool_programs": len(POOL), "layout_deviations": 3, "layout3_max_tokens": 16}
+                "pool_programs": len(POOL), "layout_deviations": 3, "layout3_max_tokens": 16,
+                "block_comment_bodies": len(BLOCK_BODIES), "line_comment_bodies": len(LINE_BODIES),
+                "comment_pairs_all_bodies_max_tokens": 10 ** 6, "literal_variants": len(LITERALS)}
 
     def _depth(self, tier, sid):
         b = self.bounds(tier)
@@ -349,6 +451,10 @@ class C02(Check):
         for pid in range(len(POOL)):
             for j in range(4):
                 out.append((3, pid, j))
+        for pid in range(len(POOL)):
+            for j in range(4):
+                out.append((4, pid, j))
+        out.append((5,))
         return out
 
     def cases(self, tier, shard):
@@ -357,7 +463,16 @@ class C02(Check):
             return self._cases1(tier, shard[1], shard[2])
         if space == 2:
             return (("nm", shard[1], i) for i in range(len(POOL[shard[1]])))
-        return self._cases3(tier, shard[1], shard[2])
+        if space == 3:
+            return self._cases3(tier, shard[1], shard[2])
+        if space == 4:
+            return self._cases4(tier, shard[1], shard[2])
+        return (("lit", pid) for pid in range(len(POOL)))
+
+    def _cases4(self, tier, pid, j):
+        full = 1 if len(POOL[pid]) <= self.bounds(tier)["comment_pairs_all_bodies_max_tokens"] else 0
+        for i in range(j, len(comment_deviations(POOL[pid])), 4):
+            yield ("cmtb", pid, i, full)
 
     def _cases1(self, tier, sid, first):
         depth = self._depth(tier, sid)
@@ -456,6 +571,14 @@ class C02(Check):
                 SEEDS[case[1]][0], S.join(SEEDS[case[1]][1] + tuple(case[2])), " (inner prefix)" if case[3] < 0 else " (%d more levels)" % case[3])
         if k == "nm":
             return "space2 near misses at token %d of %r" % (case[2], S.join(POOL[case[1]]))
+        if k == "cmt":
+            return {"tokens": S.join(case[1]), "comments": [list(d) for d in case[2]], "text": render_comments(case[1], case[2])}
+        if k == "cmtb":
+            c = comment_deviations(POOL[case[1]])[case[2]]
+            return "space4 %r with comment %r alone and with every second comment%s" % (
+                S.join(POOL[case[1]]), c, "" if case[3] else " (one of the two with a plain body)")
+        if k == "lit":
+            return "space5 every literal variant at every INT/NUMBER token of %r" % (S.join(POOL[case[1]]),)
         if k == "layb":
             d = deviations(POOL[case[1]])
             return "space3 layouts of %r with deviations %r%s" % (
@@ -524,10 +647,10 @@ class C02(Check):
                 if s not in seen and (len(s), s) < (len(text), text):
                     seen.add(s)
                     yield ("text", s)
-        elif k == "lay":
+        elif k in ("lay", "cmt"):
             toks, devs = case[1], case[2]
             for i in range(len(devs)):
-                yield ("lay", toks, devs[:i] + devs[i + 1:])
+                yield (k, toks, devs[:i] + devs[i + 1:])
 
     # ---- execution ------------------------------------------------------------------
     def _report(self, ctx, fam_clause, sig, detail, case):
@@ -562,6 +685,13 @@ class C02(Check):
             self._run_near_misses(case, ctx)
         elif k == "layb":
             self._run_layout_bundle(case, ctx)
+        elif k == "cmt":
+            toks, cdevs = tuple(case[1]), tuple(tuple(d) for d in case[2])
+            self._check_variant(toks, render_comments(toks, cdevs), ("cmt", toks, cdevs), ctx, None, False)
+        elif k == "cmtb":
+            self._run_comment_bundle(case, ctx)
+        elif k == "lit":
+            self._run_literals(case, ctx)
         else:
             raise ValueError("unknown case %r" % (case,))
 
@@ -670,10 +800,10 @@ class C02(Check):
         out = [toks[:i] + toks[i + 1:], toks[:i + 1] + toks[i:]]
         if i + 1 < len(toks) and toks[i] != toks[i + 1]:
             out.append(toks[:i] + (toks[i + 1], toks[i]) + toks[i + 2:])
-        for a in ALPHABET:
+        for a in ALPHABET + ("0",):
             if a != toks[i]:
                 out.append(toks[:i] + (a,) + toks[i + 1:])
-        return out
+        return [m for m in out if not nonpositive_register_size(m)]
 
     def _run_near_misses(self, case, ctx):
         _, pid, i = case
@@ -699,6 +829,10 @@ class C02(Check):
         text = render_layout(toks, devs)
         if text is None:
             return False
+        return self._check_variant(toks, text, ("lay", toks, devs), ctx, canon, bundle)
+
+    def _check_variant(self, toks, text, narrow, ctx, canon, bundle):
+        """`text` is a layout of the derivable token string `toks`: clauses (i)-(iv)."""
         if canon is None:
             ctext = S.join(toks)
             cv = model_verdict(ctext)
@@ -712,8 +846,49 @@ class C02(Check):
         if obs != canon[1] and obs[0] == "accept" and obs[1] == verdict[1]:
             # the variant is right and the canonical layout is not: clause (iii) on its own
             self._report(ctx, "layout-changes-result", "canonical", "layout %r gives %r, the canonical layout %r gives %r"
-                         % (text, obs, S.join(toks), canon[1]), ("lay", toks, devs))
+                         % (text, obs, S.join(toks), canon[1]), narrow)
         return True
+
+    def _canonical(self, toks, ctx):
+        ctext = S.join(toks)
+        cv = model_verdict(ctext)
+        if cv[0] != "ok":
+            raise AssertionError("pool program is not derivable: %r %r" % (ctext, cv))
+        ctx.trace()
+        return (cv[1], observe(ctext, _budget(ctext)))
+
+    # space 4 ---------------------------------------------------------------------------
+    def _run_comment_bundle(self, case, ctx):
+        _, pid, i, full = case
+        toks = POOL[pid]
+        C = comment_deviations(toks)
+        a = C[i]
+        canon = self._canonical(toks, ctx)
+        self._check_variant(toks, render_comments(toks, (a,)), ("cmt", toks, (a,)), ctx, canon, True)
+        for b in C:
+            if comment_pair_allowed(a, b, full):
+                self._check_variant(toks, render_comments(toks, (a, b)), ("cmt", toks, (a, b)), ctx, canon, True)
+        ctx.transition(len(toks))
+        ctx.nontriv(("cmt", pid, i))
+
+    # space 5 ---------------------------------------------------------------------------
+    def _run_literals(self, case, ctx):
+        _, pid = case
+        toks = POOL[pid]
+        self._canonical(toks, ctx)
+        hit = False
+        for j, t in enumerate(toks):
+            if kv(t)[0] not in ("INT", "NUMBER"):
+                continue
+            for lit in LITERALS:
+                m = toks[:j] + (lit,) + toks[j + 1:]
+                if lit == t or nonpositive_register_size(m):
+                    continue
+                v, _o = self.check_text(S.join(m), ctx)
+                hit = hit or v[0] == "ok"
+                ctx.transition()
+        if hit:
+            ctx.nontriv(("lit", pid))
 
     def _run_layout_bundle(self, case, ctx):
         _, pid, idxs, extra = case
@@ -746,6 +921,16 @@ class C02(Check):
             for d in deviations(toks):
                 text = render_layout(toks, (d,))
                 assert text is not None and model_verdict(text) == ("ok", res.tree), ("deviation changes the model tree", pid, d)
+            if len(toks) <= 9:  # every comment insertion leaves the model's tokens (hence its tree) alone
+                C = comment_deviations(toks)
+                for a in C:
+                    assert model_verdict(render_comments(toks, (a,))) == ("ok", res.tree), ("comment changes the model tree", pid, a)
+                    for b in C:
+                        if comment_pair_allowed(a, b, 1):
+                            assert [t.text for t in S.lex(render_comments(toks, (a, b)))] == list(toks), (pid, a, b)
+        for lit in LITERALS:
+            assert len(S.lex(lit)) == 1 and S.lex(lit)[0].kind in ("INT", "NUMBER"), lit
+        assert strict_equal((1, ("a", 0.0)), (1.0, ("a", 0.0))) and not strict_equal((0.0,), (-0.0,)) and not strict_equal(("",), (0,))
         # incremental (space 1) verdicts == generic verdicts through the reference lexer
         n = 0
         for sid in range(len(SEEDS)):
